@@ -181,7 +181,14 @@ pub mod net {
         id: dsim::ListenId,
     }
 
+    /// What `net2::TcpBuilder::listen` hands over to `TcpListener::from_std`.
+    pub struct RawTcpListener(pub dsim::ListenId);
+
     impl TcpListener {
+        pub fn from_std(raw: RawTcpListener) -> io::Result<TcpListener> {
+            Ok(TcpListener { id: raw.0 })
+        }
+
         /// mio 0.6.23 `TcpListener::bind` sets SO_REUSEADDR only (net/tcp.rs) — a second listener on
         /// the same address fails with EADDRINUSE, which is what the kernel model does.
         pub fn bind(addr: &SocketAddr) -> io::Result<TcpListener> {
